@@ -1380,7 +1380,13 @@ class ServiceClass:
                 # For the elements in the status dataset, try and set the
                 #   corresponding response primitive attribute
                 for elem in status:
-                    if hasattr(rsp, elem.keyword):
+                    if elem.keyword in ("MessageID", "MessageIDBeingRespondedTo"):
+                        # The response always answers the original request
+                        LOGGER.warning(
+                            f"Status dataset returned by callback contained "
+                            f"an Element that will be ignored '{elem.keyword}'"
+                        )
+                    elif hasattr(rsp, elem.keyword):
                         setattr(rsp, elem.keyword, elem.value)
                     else:
                         LOGGER.warning(
@@ -1496,7 +1502,14 @@ class VerificationServiceClass(ServiceClass):
                         "a (0000,0900) Status element"
                     )
                 for elem in status:
-                    if hasattr(rsp, elem.keyword):
+                    if elem.keyword in ("MessageID", "MessageIDBeingRespondedTo"):
+                        # The response always answers the original request
+                        LOGGER.warning(
+                            f"The 'status' dataset returned by the handler "
+                            f"bound to 'evt.EVT_C_ECHO' contained an Element "
+                            f"that will be ignored '{elem.keyword}'"
+                        )
+                    elif hasattr(rsp, elem.keyword):
                         setattr(rsp, elem.keyword, elem.value)
                     else:
                         LOGGER.warning(
